@@ -5,7 +5,8 @@
 (* blank lines, removal of the common indentation (computed from the first *)
 (* line and shrunk until every non-empty line has it).  Used by C08: the   *)
 (* result must not depend on the line-ending convention, on a uniform      *)
-(* re-indentation, or on the "( )" frame.                                  *)
+(* re-indentation, on the "( )" frame, or on blanks written on an empty    *)
+(* line.                                                                   *)
 (***************************************************************************)
 EXTENDS Integers, Sequences, FiniteSets, TLC
 
@@ -55,13 +56,20 @@ Shrink(p, ls) == IF p = <<>> THEN <<>>
 CommonPrefix(ls) == IF ls = <<>> THEN <<>> ELSE Shrink(FirstPrefix(ls[1]), ls)
 StripPrefix(l, p) == IF IsPrefix(p, l) THEN SubSeq(l, Len(p) + 1, Len(l)) ELSE l
 
-\* description(): [ok, text]
+\* description(): [ok, text].  A line of blanks is an empty line (trailing blanks do not change the text); empty lines
+\* in front of and behind the text are dropped, the last line loses its trailing blanks.
+IsBlankLine(l) == \A i \in 1..Len(l) : l[i] \in WS
+RECURSIVE DropLeadingEmpty(_), DropTrailingEmpty(_)
+DropLeadingEmpty(ls) == IF ls # <<>> /\ ls[1] = <<>> THEN DropLeadingEmpty(Tail(ls)) ELSE ls
+DropTrailingEmpty(ls) == IF ls # <<>> /\ ls[Len(ls)] = <<>> THEN DropTrailingEmpty(SubSeq(ls, 1, Len(ls) - 1)) ELSE ls
 Description(raw) ==
   LET b0 == NormNL(raw)
       rp == RemoveParens(b0) IN
   IF ~rp.ok THEN [ok |-> FALSE, text |-> <<>>]
-  ELSE LET b1 == TrimRightSet(TrimLeftSet(rp.text, {NL, CR}), {NL, CR, 9, 32})
-           ls == SplitNL(b1, <<>>)
+  ELSE LET ls0 == SplitNL(rp.text, <<>>)
+           ls1 == [i \in 1..Len(ls0) |-> IF IsBlankLine(ls0[i]) THEN <<>> ELSE ls0[i]]
+           ls2 == DropTrailingEmpty(DropLeadingEmpty(ls1))
+           ls == IF ls2 = <<>> THEN <<>> ELSE [ls2 EXCEPT ![Len(ls2)] = TrimRightSet(@, WS)]
            p == CommonPrefix(ls)
        IN [ok |-> TRUE, text |-> JoinNL([i \in 1..Len(ls) |-> StripPrefix(ls[i], p)])]
 =============================================================================
